@@ -355,7 +355,8 @@ func c09ctx(p *Program, r *Report, rule string) {
 				blocking := []string{"Conn.writeControl", "Conn.writeFrame", "Conn.readFramePayload", "Conn.readLoop", "mu.lock", "Conn.discardFramePayload", "Conn.writeCloseCtx"}
 				hasBlocking := false
 				for _, e := range pa.Events {
-					if isCall(e, blocking...) {
+					// a failure close written in place (writeError inlined) is bounded by the read's context inside writeCloseCtx
+					if isCall(e, blocking...) && !inlinedWriteError(e) {
 						hasBlocking = true
 					}
 				}
@@ -371,7 +372,7 @@ func c09ctx(p *Program, r *Report, rule string) {
 				}
 				ctxKey := wt[0].Res.Key() + "#0"
 				for _, e := range pa.Events {
-					if isCall(e, blocking...) {
+					if isCall(e, blocking...) && !inlinedWriteError(e) {
 						found := false
 						for _, a := range e.Args {
 							if a != nil && a.Key() == ctxKey {
